@@ -203,7 +203,18 @@ func raceSlice(t *testing.T, backend string, seed uint64, d time.Duration, rs *r
 	}
 	rs.Incremented += queries
 	rs.Queries += queries
-	fb.Close()
+	closed := make(chan struct{})
+	go func() {
+		fb.Close()
+		close(closed)
+	}()
+	select {
+	case <-closed:
+	case <-time.After(120 * time.Second):
+		// two minutes for an operation that takes milliseconds: not a matter of timing any more
+		violate("deadlock: FBDNSDB.Close did not return within 120 s (backend %s)", backend)
+		return
+	}
 	select {
 	case <-watcherDone:
 	case <-time.After(5 * time.Second):
